@@ -146,6 +146,11 @@ pub enum Op {
     /// builder created, then the cwd changes, then exec(): when does a builder resolve its paths?
     CopyBDeferred { s: String, d: String, calls: Vec<CopyCall>, cwd: String },
     /// builder created, working directory changed, then executed: the path was given before
+    /// a builder kept across steps (like a handle): configured once, executed any number of times
+    ChmodBKeep { b: usize, p: String, calls: Vec<ChmodCall> },
+    ChownBKeep { b: usize, p: String, calls: Vec<ChownCall> },
+    BExec { b: usize },
+    BDrop { b: usize },
     ChmodBDeferred { p: String, calls: Vec<ChmodCall>, cwd: String },
     ChownBDeferred { p: String, calls: Vec<ChownCall>, cwd: String },
     Cwd,
@@ -221,6 +226,10 @@ impl Op {
             Op::Copy { .. } => "copy",
             Op::CopyB { .. } => "copy_b",
             Op::CopyBDeferred { .. } => "copy_b_deferred",
+            Op::ChmodBKeep { .. } => "chmod_b_keep",
+            Op::ChownBKeep { .. } => "chown_b_keep",
+            Op::BExec { .. } => "b_exec",
+            Op::BDrop { .. } => "b_drop",
             Op::ChmodBDeferred { .. } => "chmod_b_deferred",
             Op::ChownBDeferred { .. } => "chown_b_deferred",
             Op::Cwd => "cwd",
@@ -323,6 +332,7 @@ impl Op {
             Op::Copy { s, d } | Op::CopyB { s, d, .. } | Op::MoveP { s, d } => vec![s, d],
             Op::CopyBDeferred { s, d, cwd, .. } => vec![s, d, cwd],
             Op::ChmodBDeferred { p, cwd, .. } | Op::ChownBDeferred { p, cwd, .. } => vec![p, cwd],
+            Op::ChmodBKeep { p, .. } | Op::ChownBKeep { p, .. } => vec![p],
             Op::Symlink { l, t } => vec![l, t],
             Op::Macro { a, b, .. } => {
                 let mut v = vec![a];
